@@ -46,7 +46,7 @@ void rs_mark(void); int64_t rs_tracked_live(void); uint64_t rs_tracked_double(vo
 CBox_void rs_box_tracked(void); CBox_u64 rs_box_u64(uint64_t); CBox_u8 rs_box_u8(uint8_t); CBox_pod rs_box_pod(uint8_t, uint32_t); CBox_ptr rs_box_ptr(const uint8_t *);
 uint64_t rs_take_box_u64(CBox_u64); CBox_void rs_box_opaque(CBox_void); CSliceBox_u64 rs_slicebox_u64(uintptr_t);
 CArc_void rs_arc_tracked(void); CArc_void rs_arc_empty(void); uintptr_t rs_arc_strong(const void *); CArc_void rs_arc_clone(const CArc_void *); uint64_t rs_take_arc(CArc_void); uint32_t rs_arc_foreign_roundtrip(CArc_void, uint32_t); CArcSome_u64 rs_arcsome_u64(uint64_t);
-uint64_t rs_slice_sum_u8(CSliceRef_u8); uint64_t rs_slice_sum_u64(CSliceRef_u64); uint64_t rs_slice_sum_pod(CSliceRef_pod); void rs_slice_fill(CSliceMut_u64, uint64_t);
+uint64_t rs_slice_sum_u8(CSliceRef_u8); uint64_t rs_str_digest(CSliceRef_u8); uint64_t rs_slice_sum_u64(CSliceRef_u64); uint64_t rs_slice_sum_pod(CSliceRef_pod); void rs_slice_fill(CSliceMut_u64, uint64_t);
 CSliceRef_u8 rs_static_str(void); CSliceRef_pod rs_static_pods(void);
 CVec_u64 rs_vec_u64(uintptr_t, uintptr_t); CVec_u8 rs_vec_u8(uintptr_t); CVec_pod rs_vec_pod(uintptr_t); CVec_tracked rs_vec_tracked(uintptr_t); uint64_t rs_vec_digest(CVec_u64); void rs_vec_push(CVec_u64 *, uint64_t);
 uintptr_t rs_feed(OpaqueCallback_u64, uint64_t); uintptr_t rs_feed_pod(OpaqueCallback_pod, uint32_t);
